@@ -7,14 +7,14 @@ VARIANT="${1:-asan}"
 REPO="${VERIF_REPO:-/repo}"
 VERIF="$(cd "$(dirname "$0")/.." && pwd)"
 case "$VARIANT" in
-  asan)  SAN="-O1 -g -fno-omit-frame-pointer -fsanitize=address,undefined -fno-sanitize=alignment -fno-sanitize-recover=all" ;;
+  asan)  SAN="-O1 -g -fno-omit-frame-pointer -fsanitize=address,undefined -fno-sanitize=alignment,nonnull-attribute -fno-sanitize-recover=all" ;;
   plain) SAN="-O1 -g -fno-omit-frame-pointer" ;;
   *) echo "unknown variant $VARIANT" >&2; exit 2 ;;
 esac
 LIBFLAGS="-std=c++11 -DGDSTK_VERIF $SAN -I$REPO/include -I$REPO/external"
 DRVFLAGS="-std=c++17 -DGDSTK_VERIF $SAN -I$REPO/include -I$REPO/external -I$VERIF/driver"
 HASH=$( { echo "$LIBFLAGS"; echo "$DRVFLAGS"; g++ --version | head -1;
-          find "$REPO/src" "$REPO/include" "$REPO/external/clipper" "$VERIF/driver" -type f \( -name '*.cpp' -o -name '*.hpp' -o -name '*.h' \) -print0 \
+          find "$REPO/src" "$REPO/include" "$REPO/external/clipper" "$VERIF/driver" -type f \( -name '*.cpp' -o -name '*.hpp' -o -name '*.h' -o -name '*.inc' \) -print0 \
             | sort -z | xargs -0 sha1sum; } | sha1sum | cut -c1-16 )
 ROOT="$VERIF/.build"
 OUT="$ROOT/$VARIANT-$HASH"
